@@ -140,6 +140,10 @@ class ConservationMonitor:
         self.last_count = self.tap.count
         nph, nel = len(m.phases), len(m.elements)
         out = cap['out']
+        if not all(np.all(np.isfinite(np.asarray(out[name], dtype=float))) for name in ('composition', 'volFrac', 'fconc')) or not all(np.all(np.isfinite(np.asarray(xx, dtype=float))) for xx in cap['x']):
+            # a non-finite state is a breach of C03 (well-formed runs), reported there; conservation cannot be judged on it
+            cnt['nonfinite_steps'] = cnt.get('nonfinite_steps', 0) + 1
+            return
         # ---- item 2: the recorded row is that evaluation
         for name in ('composition', 'volFrac', 'fconc'):
             if not np.array_equal(np.asarray(getattr(pd, name)[n], dtype=float), out[name]):
@@ -280,6 +284,11 @@ class ConservationMonitor:
             fv_live += min(pref * float(np.sum(psd * R ** 3)), 1.0)
             xbm = 0.5 * (np.asarray(xb, dtype=float)[:-1] + np.asarray(xb, dtype=float)[1:])
             fc_live += pref * np.sum((psd * R ** 3)[:, None] * xbm, axis=0)
+            if float(np.sum(cap['x'][p])) < self.minDens:
+                # the step's raw distribution summed to less than the nucleate threshold (classes driven negative by an over-long explicit step
+                # outweigh the rest), so the step reported "no precipitates" for this phase; the positive classes survive the removal of the
+                # negative ones and are carried on: their content is the explained difference
+                slack += np.abs(pref * np.sum((psd * R ** 3)[:, None] * xbm, axis=0)) * 1.000001
             regrid = any(ev[0] == 'remesh' and ev[1] == p for ev in events)
             xbmax = np.max(np.abs(xbm), axis=0) if len(xbm) else np.zeros(nel)
             if regrid or len(psd) != len(cap['x'][p]):
